@@ -193,6 +193,9 @@ class C10Merge2D(Harness):
                     if tier == "quick" and inplace and axis is None:
                         continue
                     yield f"m2d-S{'x'.join(map(str, shape))}-ax{axis}-i{int(inplace)}", dict(shape=list(shape), axis=axis, inplace=inplace)
+        if tier == "quick":
+            # one 3D instance merging along the last axis (the generic bin-map path with two other axes of equal length)
+            yield "m2d-S2x2x2-ax2-i0", dict(shape=[2, 2, 2], axis=2, inplace=False)
 
     def declare(self, cx, p):
         shape = p["shape"]
